@@ -535,6 +535,8 @@ class DynGraph(nx.Graph):
                         return 1
                     else:
                         return 0
+                else:
+                    return 0
 
     def has_interaction(self, u, v, t=None):
         """Return True if the interaction (u,v) is in the graph at time t.
